@@ -34,6 +34,11 @@ var epoch uint64 = 1
 // VerifNewExecution is called by the scheduler at the start of every controlled execution.
 func VerifNewExecution() { epoch++ }
 
+// VerifRealWaiters counts goroutines currently inside a blocking call of a REAL primitive (code that
+// ran outside a controlled execution, e.g. a worker pool started earlier): cooperative operations
+// cannot wake them, so a "deadlock" seen while this is non-zero proves nothing.
+var VerifRealWaiters ratomic.Int64
+
 // VerifOps counts intercepted operations (evidence: the shim is in the path).
 var VerifOps ratomic.Int64
 
@@ -74,7 +79,9 @@ func (m *Mutex) isHeld() bool { return m.held && m.ep == epoch }
 
 func (m *Mutex) Lock() {
 	if !active() {
+		VerifRealWaiters.Add(1)
 		m.real.Lock()
+		VerifRealWaiters.Add(-1)
 		return
 	}
 	VerifOps.Add(1)
@@ -244,7 +251,9 @@ func (wg *WaitGroup) Done() { wg.Add(-1) }
 
 func (wg *WaitGroup) Wait() {
 	if !active() {
+		VerifRealWaiters.Add(1)
 		wg.real.Wait()
+		VerifRealWaiters.Add(-1)
 		return
 	}
 	VerifOps.Add(1)
@@ -397,7 +406,9 @@ func (c *Cond) sync() {
 
 func (c *Cond) Wait() {
 	if !active() {
+		VerifRealWaiters.Add(1)
 		c.realCond().Wait()
+		VerifRealWaiters.Add(-1)
 		return
 	}
 	VerifOps.Add(1)
